@@ -100,6 +100,9 @@ def run(chk):
                     chk.violated("R3", hname, detail + "; hash denotes " + ev.show(res)[:300], short(f["loc"]))
                 else:
                     chk.inconclusive("R3", hname, detail, short(f["loc"]))
+            except ev.ReinterpretCast as x:
+                chk.violated("R3", hname, "the hash is computed from the object representation (%s): values that compare equal but differ in their bytes "
+                             "(+0 and -0; long double padding) hash differently" % x, short(f["loc"]))
             except ev.Inconclusive as x:
                 chk.inconclusive("R3", hname, str(x), short(f["loc"]))
     stdlib_hash(chk)
